@@ -5,7 +5,7 @@
    C02_to_originator are discharged on these instances by computation, and the theorems applied. *)
 From RSP Require Import Base Consts Ttl Crypt Packet Rewrite Choose Proxy Spec_Packet Packet_proofs
   Slots_proofs Dup_proofs Reply_proofs Forward_proofs Wf_proofs Wfrw_proofs Keeps_proofs Local_proofs
-  Properties_C02 Properties_C06.
+  Refs_proofs Tight_proofs Reg_proofs Balance_proofs Properties_C02 Properties_C06 Properties_C17.
 Local Open Scope N_scope.
 
 Definition toy_md5 (x : bytes) : bytes := firstn 16 (map (fun b => (b * 7 + 3) mod 256) x ++ repeat 7 16).
@@ -96,4 +96,21 @@ Proof.
   - vm_compute in Hs. injection Hs as <-. vm_compute in G. injection G as <-.
     destruct (M eq_refl eq_refl eq_refl) as [M1 M2].
     split; [exact W|]. split; [reflexivity|]. repeat split; assumption.
+Qed.
+
+(* C17_exactly_once is not vacuous: a valid history in which an object is referred to from two places, then from
+   a reply queue as well, and is released when the last of them lets go *)
+Definition ex_ops1 : list hop := [HRecv 0 100%Z ex_rnd ex_request nofail; HWriter 0 100%Z 0%Z ex_rnd false nofail].
+Definition ex_ops2 : list hop := ex_ops1 ++ [HReply 0 ex_reply 101%Z ex_rnd nofail].
+Definition ex_ops3 : list hop := ex_ops2 ++ [HDrain 0].
+Example ex_history :
+  cfg_ok ex_cfg 1 /\ Forall (op_ok 1 1) ex_ops3 /\
+  (let st := fold_left (hstep toy_md5 toy_rx ex_cfg) ex_ops1 (init_state 1 1) in refs st 0 = 2 /\ rcount st 0 = 2) /\
+  (let st := fold_left (hstep toy_md5 toy_rx ex_cfg) ex_ops2 (init_state 1 1) in refs st 0 = 2 /\ rcount st 0 = 2 /\ c_replyq (get_client st 0) = [0%nat]) /\
+  (let st := fold_left (hstep toy_md5 toy_rx ex_cfg) ex_ops3 (init_state 1 1) in refs st 0 = 1 /\ rcount st 0 = 1 /\ c_replyq (get_client st 0) = []).
+Proof.
+  split.
+  - intros rl s [<- | []] [<- | [<- | []]]; repeat constructor.
+  - split; [repeat constructor; vm_compute; try reflexivity; apply Nat.leb_le; reflexivity|].
+    vm_compute. repeat split; reflexivity.
 Qed.
